@@ -111,6 +111,8 @@ where
         });
         return st;
     }
+    // diagnostic only (stderr): VCHECK_SLOW_MS=<n> names cases that take longer than n ms
+    let slow_ms: u64 = std::env::var("VCHECK_SLOW_MS").ok().and_then(|s| s.parse().ok()).unwrap_or(u64::MAX);
     let next = AtomicU64::new(0);
     let total = Mutex::new(Stats::default());
     std::thread::scope(|s| {
@@ -125,7 +127,12 @@ where
                         if k >= n_cases {
                             break;
                         }
+                        let t0 = std::time::Instant::now();
                         f(k, &mut st);
+                        let ms = t0.elapsed().as_millis() as u64;
+                        if ms >= slow_ms {
+                            eprintln!("SLOW-CASE case={k} ms={ms}");
+                        }
                     }
                     total.lock().unwrap().merge(st);
                 })
